@@ -121,7 +121,7 @@ Smp(T) ==
                          [i \in DOMAIN T[2] |-> FirstOf(ss[i])] \o [i \in DOMAIN T[2] |-> LastOf(ss[i])]
     [] T[1] = "newtype" -> Smp(T[3])
     [] T[1] \in {"final", "annotated"} -> Smp(T[2])
-    [] T[1] = "fwd" -> Smp(T[3])
+    [] T[1] \in {"fwd", "tvarc", "tvarb"} -> Smp(T[3])
     [] T[1] = "literal" -> [i \in DOMAIN T[2] |-> IF T[2][i][1] = "lenum" THEN <<"enum", T[2][i][2][2], T[2][i][3]>> ELSE T[2][i]]
     [] T[1] = "dc" -> LET fs == T[3] IN
                       << <<"obj", T[2], [i \in DOMAIN fs |-> IF FInit(fs[i]) THEN FirstOf(Smp(fs[i][2])) ELSE DefaultOf(fs[i])]>>,
